@@ -68,13 +68,16 @@ PROPERTIES = {
                 + ["cmp8::float_derived_ops", "cmp8::i32f0_vs_f32", "float::check_kind_f32", "float::check_kind_f64"],
         "kani_thorough": _mods("cmp8", [l for l in L9 if l not in ("l0", "l4", "l8")], ["i8_vs_i8", "i8_vs_u8", "u8_vs_u8"])
                 + _mods("cmp8", [f for f in F9 if f != "f4"], ["i8_vs_f32", "u8_vs_f32", "i8_vs_f64", "u8_vs_f64"]),
-        "explanation": "fixed_cmp_fixed (eq, partial_cmp, lt, le, gt, ge) verified by Verus for all 100 (lhs family, rhs family) pairs with both "
-                       "fractional-bit counts symbolic, i.e. every ordered pair of the 507 layouts, on top of the to_fixed_helper contract; "
-                       "to_fixed_helper (all 10 source types, all 507 destination layouts) and to_float_kind (all bit patterns, all layouts) "
-                       "under Kani function contracts; the comparison macro bodies verified on every pair of 8-bit layouts, a sample of "
-                       "cross-width pairs, every primitive integer type and f32/f64 against the exact ordering",
-        "bounded_parts": ["fixed_cmp_int / fixed_cmp_float macro bodies: complete for the instantiated type pairs only (8-bit left-hand sides, "
-                          "every integer type, f32 / f64); fixed_cmp_fixed is proved by Verus for all 100 family pairs with both Frac symbolic"],
+        "explanation": "Verus, every Frac symbolic: fixed_cmp_fixed (eq, partial_cmp, lt, le, gt, ge) for all 100 (lhs family, rhs family) pairs, i.e. every "
+                       "ordered pair of the 507 layouts; fixed_cmp_float for the ten families against f32 and f64 in both directions; fixed_cmp_int "
+                       "for the ten families against the twelve integer types in both directions — all against the exact ordering of the values, "
+                       "on top of the to_fixed_helper / to_float_kind contracts, which Kani discharges as function contracts (all source types, all "
+                       "507 destination layouts, all float bit patterns); the macro bodies additionally on every pair of 8-bit layouts (Kani)",
+        "bounded_parts": [],
+        "assumptions": ["Verus rejects mutually dependent trait impls: each direction (X op Y / Y op X) is proved in its own rendering and assumes the other "
+                        "(cmp@F with the reverse pairs, cmpfloat/cmpfloatrev, cmpint/cmpintrev); every assumed direction is proved in the sibling unit",
+                        "a float is seen through uninterpreted nan/inf/neg/xx/dir whose meaning is the Kani contract of to_float_kind; "
+                        "`then(cmp(b, xx), dir)` is the exact ordering because |xx - exact| <= 1/2 (round to nearest) — stated, not machine-checked"],
     },
     "C04": {
         "level": "proof",
@@ -82,11 +85,15 @@ PROPERTIES = {
         "kani": TFH + _mods("conv8", ["s0", "s4", "s8"], ["i8_to_i8", "i8_to_u8", "u8_to_i8", "u8_to_u8"]) + CONVINT + CONVX,
         "kani_thorough": _mods("conv8", [x for x in S9 if x not in ("s0", "s4", "s8")], ["i8_to_i8", "i8_to_u8", "u8_to_i8", "u8_to_u8"]),
         "explanation": "`impl FromFixed for <family>` (from_fixed, checked_, saturating_, wrapping_, overflowing_from_fixed) verified by Verus for all ten "
-                       "destination families with a symbolic Frac, generic over EVERY source type, on top of the to_fixed_helper contract; the typenum "
-                       "bounds of 371 From / LossyFrom impls verified (unit convert); to_fixed_helper under contract for all layouts (Kani); "
-                       "the policies additionally verified bit-precisely on all pairs of 8-bit layouts, "
-                       "all 12 integer types, listed cross-width pairs and From/LossyFrom instances",
-        "bounded_parts": ["integer sources/destinations (impl_int!: to_repr_fixed / from_repr_fixed) and the bodies of From / LossyFrom: Kani on the instantiated type pairs only"],
+                       "destination families with a symbolic Frac, generic over EVERY source type, on top of the to_fixed_helper contract; unit intconv: "
+                       "ToFixed / FromFixed of the twelve integer types and bool, ToFixed of the ten families, to_repr_fixed / from_repr_fixed / IntRepr, "
+                       "from_num / to_num and their policies, signum, and the bodies of 260 From / LossyFrom impls of convert.rs (each re-homed as a free "
+                       "function under its translated where-clause); the typenum bounds of all 371 From / LossyFrom impl headers (unit convert); "
+                       "to_fixed_helper under contract for all layouts (Kani); the policies additionally bit-precisely on all pairs of 8-bit layouts",
+        "bounded_parts": ["From / LossyFrom bodies that are `into()` delegations, involve floats or bool, or are the identity (111 impls): Kani instances only"],
+        "assumptions": ["64-bit target: isize / usize are represented by FixedI64<U0> / FixedU64<U0> (`global size_of usize == 8`)",
+                        "R13: Verus forbids the trait cycle Fixed: FromFixed; the generic bound `F: Fixed` of the real ToFixed signatures is widened to `F: Fixed + FromFixed`",
+                        "lossless primitive `From` conversions that vstd does not specify (identity, unsigned -> wider signed) are an axiom (specs/primfrom.rs)"],
     },
     "C05": {
         "level": "proof",
@@ -98,10 +105,12 @@ PROPERTIES = {
                  "floatglue::i8_to_float", "floatglue::u8_to_float", "floatglue::u128_to_float", "floatglue::i64_to_float"]
                 + _mods("floatglue", ["g%d" % i for i in range(9)], ["i8_from_f32", "u8_from_f32", "i8_from_f64", "u8_from_f64"]),
         "explanation": "from_to_float_helper equals the IEEE-754 round-to-nearest-even encoder bit for bit, and to_float_kind equals the exact "
-                       "rounding of the decoded float, for every bit pattern and all 507 layouts (Kani function contracts, symbolic layout)",
-        "bounded_parts": ["the generic `impl ToFixed for f32/f64` / `impl FromFixed for f32/f64` forwarders (traits.rs impl_float!) are verified by Kani through the 8-bit families "
-                          "(all layouts, every float bit pattern) and two wider layouts; the per-family policy helpers private_{saturating,overflowing}_from_float_helper "
-                          "are proved by Verus for all ten families (unit fromfloat)"],
+                       "rounding of the decoded float, for every bit pattern and all 507 layouts (Kani function contracts, symbolic layout); on top of "
+                       "them Verus proves the policy glue for every fixed-point type: private_{saturating,overflowing}_from_float_helper of the ten "
+                       "families (unit fromfloat) and `impl ToFixed for f32/f64`, `impl FromFixed for f32/f64` generic over F (unit floatglue); "
+                       "Kani re-checks the glue end to end through the 8-bit families (all layouts, every float bit pattern)",
+        "bounded_parts": [],
+        "assumptions": ["the Verus units see a float through uninterpreted nan/inf/neg/xx/of_fixed; their meaning is fixed by the Kani contracts of the real helpers"],
     },
     "C06": {
         "level": "proof",
@@ -117,9 +126,12 @@ PROPERTIES = {
         "verus_units": ["nofrac", "remint@*"],
         "kani": _mods("rem8", ["i4f4", "i1f7", "u4f4"], REM) + ["rem8::div_euclid_region_reachable"],
         "kani_thorough": _mods("rem8", ["i0f8", "i8f0", "i6f2", "u0f8", "u8f0", "u1f7"], REM),
-        "explanation": "checked_rem / checked_rem_euclid / rem_euclid / % verified for all ten families (Verus); the integer-divisor and "
-                       "Euclidean-division forms verified by Kani on 8-bit layouts outside the region of the known finding",
-        "bounded_parts": ["rem_int / rem_euclid_int / div_euclid(_int) forms: 8-bit layouts only (Kani twins)"],
+        "explanation": "Verus, all ten families, symbolic Frac: checked_rem / checked_rem_euclid / rem_euclid / % (unit nofrac); for a primitive-integer "
+                       "divisor n (the value n, i.e. the possibly unrepresentable pattern n * 2^f): checked_rem_int, `fixed % integer`, wrapping_ / "
+                       "overflowing_rem_int, overflowing_ / wrapping_ / plain rem_euclid_int — for the signed families the bit-level computation "
+                       "(wrapping_abs, shift, mask, or) is proved equal to a mod |n * 2^f| reduced modulo 2^w with the exact overflow flag (unit remint); "
+                       "the Euclidean-division forms by Kani on 8-bit layouts outside the region of the known finding",
+        "bounded_parts": ["div_euclid / div_euclid_int families and the signed checked_rem_euclid_int (closure inside Option::map): 8-bit layouts only (Kani)"],
     },
     "C10": {
         "level": "proof",
@@ -130,6 +142,7 @@ PROPERTIES = {
     },
     "C11": {
         "level": "proof",
+        "must_fail_quick": False,     # the vacuity twins of these units run under the property that owns each unit (and in C11 thorough)
         "verus_units": ["arith_widen", "arith128", "widediv", "nofrac", "fracops", "round@*", "transc", "leaves", "cmp@*", "fromfixed@*", "fromfloat@*", "wrapping", "traitfwd@*", "intconv", "floatglue", "trig", "cmpfloat@*", "cmpfloatrev@*", "cmpint@*", "cmpintrev@*", "bitops@*", "remint@*"],
         "kani": [{"harness": h, "classes": ["panic"]} for h in
                  _mods("arith8", ["i4f4", "i0f8", "u4f4", "u0f8"], FORMS) + ["arith8::abs_forms_i8"] + TFH
